@@ -28,6 +28,14 @@ bool prepare(TableFace &tf, const std::string &kind) {
         if (at + 2 * esz <= g.size()) memcpy(&g[at], &g[at + esz], esz);
         tf.tables[tagof("Gloc")] = g;
     }
+    if (kind == "hiddenfeat") {        // every feature carries the hidden flag: gr_face_n_fref reports none
+        std::vector<uint8_t> ft = tf.tables[tagof("Feat")];
+        if (ft.size() >= 12) {
+            const bool v2 = be16(&ft[0]) >= 2; const unsigned n = be16(&ft[4]); const size_t rec = v2 ? 16 : 12, fo = v2 ? 12 : 8;
+            for (unsigned i = 0; i < n && 12 + rec * i + fo + 1 < ft.size(); ++i) ft[12 + rec * i + fo] |= 0x08;
+        }
+        tf.tables[tagof("Feat")] = ft;
+    }
     if (kind == "noname") tf.drop("name");
     else if (kind == "badlabel") {      // every Windows-platform name string ends in an unpaired lead surrogate
         std::vector<uint8_t> n = tf.tables[tagof("name")];
@@ -108,7 +116,10 @@ GRV_CMD(facelife) {
             int ok = 1; std::string h, key;
             if (op == "make_face") { face = arg >= 8 ? gr_make_file_face(file_of(kind).c_str(), unsigned(arg - 8)) : tf->make(unsigned(arg)); ok = face != 0; }
             else if (op == "label") {
-                const gr_feature_ref *r = gr_face_n_fref(face) ? gr_face_fref(face, 0) : 0;
+                // hidden features are not counted by gr_face_n_fref but can be found by their id
+                gr_uint32 firstId = 0;
+                { auto it = tf->tables.find(tagof("Feat")); if (it != tf->tables.end() && it->second.size() >= 16) firstId = be16(&it->second[0]) >= 2 ? ((gr_uint32(be16(&it->second[12])) << 16) | be16(&it->second[14])) : be16(&it->second[12]); }
+                const gr_feature_ref *r = gr_face_n_fref(face) ? gr_face_fref(face, 0) : gr_face_find_fref(face, firstId);
                 if (r) { gr_uint16 lang = 0x409; gr_uint32 len = 0; void *p = gr_fref_label(r, &lang, gr_utf8, &len); if (p) gr_label_destroy(p);
                          if (gr_fref_n_values(r)) { lang = 0x409; p = gr_fref_value_label(r, 0, &lang, gr_utf16, &len); if (p) gr_label_destroy(p); } }
             }
